@@ -57,6 +57,17 @@ def run(ctx):
     ctx.coverage.update(sweep_targets=sw["targets"], sweep_seed_encodings=sw["seeds"], sweep_inputs=sw["inputs"], sweep_by_entry=sw["by_entry"])
     # third family: the runtime host protocol connection facing a misbehaving runtime (HostProto.tla)
     hd = vlib.copy_specs(ctx, "hostproto")
+    # proofs nested up to and beyond the verifier's depth limit, with correct hashes, through every child slot (in version 1
+    # proofs also the leaf slot, which the decoder does not constrain to hold a leaf)
+    pd = json.loads(vlib.run_vh(ctx, ["proof-depth", "-deep", "200000" if q else "1500000"], timeout=600))
+    for p in (pd["problems"] or [])[:5]:
+        if p["kind"] == "valid-proof-rejected":
+            line = "MODEL-DRIFT property=C16 proof within the documented depth limit rejected: %s" % json.dumps(p)[:300]
+            ctx.drift.append(line)
+            print(line)
+            continue
+        vlib.report(ctx, "proof verifier: %s (%s)" % (p["kind"], json.dumps(p)[:400]), p, {"kind": p["kind"], "entry": "syncer.VerifyProof"})
+    ctx.coverage.update(proof_depth_cases=pd["cases"], proof_depth_accepted=pd["accepted"], proof_depth_rejected=pd["rejected"])
     hr = vlib.run_tlc(ctx, hd, "MCHostProto", "design_hostproto.cfg", timeout=1200)
     vlib.tlc_must_pass(ctx, hr, "design run HostProto (NeverHangs, OneAnswer, CloseReturns under fairness)")
     hn = vlib.run_tlc(ctx, hd, "MCHostProto", "design_hostproto_nodelete.cfg", timeout=600)
